@@ -110,6 +110,10 @@ def overwrite_findings(path):
         old = sym.norm(('ld', e.addr))
         if nf.get(old) is True:
             continue
+        # the object was filled wholesale from another one just before (struct assignment): its pointer
+        # members are borrowed copies at this point, replacing them releases nothing
+        if any(x.kind == 'call' and x.name.startswith('llvm.memcpy') and x.args and sym.norm(sym.root_of(x.args[0])) == sym.norm(sym.root_of(e.addr)) for x in evs[:i]):
+            continue
         if e.val == sym.C0 or sym.norm(e.val) == old:
             # clearing: fine if the old value was released / saved, checked below; a plain clear of a
             # borrowed pointer is also fine
